@@ -152,6 +152,7 @@ func main() {
 		finish(r)
 	}
 
+	observeEmptyMessage(r)
 	runAll(r, ce, se)
 	stopProfile()
 	g.close()
@@ -273,9 +274,15 @@ func runAll(r *ev.Run, ce *codecEnv, se *streamEnv) {
 				if j.codec != nil {
 					ce.runCodecCase(*j.codec)
 					r.Count("worker_ms_codec_cases", time.Since(t0).Milliseconds())
+					if d := time.Since(t0); d > 8*time.Second {
+						r.Note(fmt.Sprintf("slow codec case %s seed %d: %.1fs", j.codec.Type, j.codec.Seed, d.Seconds()))
+					}
 				} else {
 					runStreamCase(se, *j.stream)
 					r.Count("worker_ms_stream_cases", time.Since(t0).Milliseconds())
+					if d := time.Since(t0); d > 8*time.Second {
+						r.Note(fmt.Sprintf("slow stream case %d: %.1fs", j.stream.Idx, d.Seconds()))
+					}
 				}
 			}
 		}()
